@@ -233,6 +233,24 @@ def run(F, R, tier):
             R.ob("insert-always-stores", "%s: every return is behind the HashMap::insert call" % H.last(p), not rets,
                  "a return is reachable without storing (bb%s)" % rets[:3] if rets else "HashMap::insert dominates every return", F.loc(g))
     R.floor("stores into Object-keyed maps", n_store, 2)
+    # ... and a lookup is answered by the HashMap on every path: no return of HMap::get / HMap::contains without the
+    # HashMap query (a side cache keyed by object identity goes stale when the entry is overwritten through an equal
+    # but distinct key)
+    for p, meths in (("object::hmap::HMap::get", ("get", "get_key_value", "get_mut")), ("object::hmap::HMap::contains", ("contains_key", "get"))):
+        g = F.fn(p)
+        if not R.anchor(p, g and g.get("mir")):
+            continue
+        B = M.Body(g)
+        q = M.call_blocks(B, lambda t: (t.get("callee") or "").startswith("std::collections::HashMap") and H.last(t.get("callee") or "") in meths)
+        free = M.reachable_avoiding(B, 0, q) if q else set(range(B.n))
+        rets = sorted(free & M.return_blocks(B))
+        R.ob("lookup-always-consults-map", "%s: every return is behind the HashMap query" % H.last(p), bool(q) and not rets,
+             "a result is produced without asking the HashMap (bb%s)" % rets[:3] if rets or not q else "the HashMap query dominates every return", F.loc(g))
+    # the map object holds nothing but the HashMap: there is no second store a lookup or an insert could disagree with
+    hm = F.adts.get("object::hmap::HMap")
+    if R.anchor("struct HMap", hm):
+        flds = [fl.get("name") for v in hm.get("variants", []) for fl in v.get("fields", [])]
+        R.ob("lookup-always-consults-map", "HMap has the HashMap as its only field", flds == ["pairs"], "fields: %s" % flds)
     # lookups take the key itself (no pre-conversion)
     for nm, meth in (("get", "get"), ("contains", "contains_key"), ("insert", "insert")):
         g = F.fn("object::hmap::HMap::" + nm)
